@@ -111,7 +111,7 @@ package signappx
 //@ func verifyBundle
 //@   property C11 C02
 //@   ghost bad bool = false
-//@   before call (*archive/zip.File).DataOffset(_): assert @the_package_index_of_a_member_is_a_position_in_the_manifest_never_the_already_seen_marker 0 <= pkgIndex
+//@   before call builtin mapupdate(m, k, v): assert @a_package_is_marked_as_seen_only_while_its_index_is_still_a_position_in_the_manifest v == 0 - 1 ==> 0 <= pkgIndex
 //@   before call Verify(src, n, skip): assert @nested_package_verified_with_the_callers_digest_choice skip == skipDigests
 //@   on call Verify(_, _, _) ret (s, e): bad = bad || e != nil
 //@   ensures @no_nested_package_that_fails_verification_is_tolerated ret0 == nil ==> !bad
